@@ -497,7 +497,8 @@ Section SchedCmdGen.
   Variable bsub : str.
   Hypothesis par_tok : forall f, tok_wf f = true -> par (snd (tok_vals f)) (fst (tok_vals f)) = Ok (tsub f).
   Hypothesis tsub_ok : forall f, tok_wf f = true -> sub_ok (tsub f) = true.
-  Hypothesis par_bare : has_bare (c_cmd c) || has_bare (c_restart c) = true -> par procs nodes = Ok bsub.
+  Hypothesis par_bare : schedulable st = true -> has_bare (c_cmd c) || has_bare (c_restart c) = true ->
+    par procs nodes = Ok bsub.
 
   Lemma substitute_gen : forall ps, pieces_wf ps = true -> (has_bare ps = true -> par procs nodes = Ok bsub) ->
     substitute par nodes procs (pieces_text ps) =
@@ -521,7 +522,7 @@ Section SchedCmdGen.
   Proof.
     unfold scheduler_command. unfold st. rewrite (run_get_nodes c), (run_get_procs c).
     rewrite (schedulable_truthy c HP). fold st.
-    destruct (schedulable st); auto.
+    destruct (schedulable st) eqn:SC; auto. specialize (par_bare eq_refl).
     pose proof (hp_cmd c HP) as E1. pose proof (hp_restart c HP) as E2.
     pose proof (hp_cmd_wf c HP) as W1. pose proof (hp_restart_wf c HP) as W2.
     fold st in E1, E2. rewrite <- E1.
@@ -641,35 +642,34 @@ Section LsfStep.
     - split. apply rs_word. reflexivity.
   Qed.
 
-  Lemma opt_facts : forall K name v, key_name K = name -> K <> RExclusive -> In K res_keys_str ->
-    (match lookup name (st_res st) with Some x => x | None => v end = v \/ True) ->
-    forall x, (x = match lookup name (st_res st) with Some y => y | None => v end) -> truthy v = false ->
+  Lemma opt_facts : forall K v, K <> RExclusive -> In K res_keys_str -> truthy v = false ->
+    let x := match lookup (key_name K) (st_res st) with Some y => y | None => v end in
     tval x = declared (st_res st) K /\ (forall w, tval x = Some w -> safe_word w).
   Proof.
-    intros K name v EK NX IK _ x EX TV. subst x. unfold tval, declared. rewrite EK.
-    destruct (lookup name (st_res st)) as [y|] eqn:L.
+    intros K v NX IK TV x. unfold x, tval, declared.
+    destruct (lookup (key_name K) (st_res st)) as [y|] eqn:L.
     - destruct (truthy y) eqn:T.
       + split. destruct K; auto; congruence. intros w E. inversion E; subst.
         apply (decl_safe_word (st_res st) K).
         * pose proof (hp_vals c HP) as V. rewrite forallb_forall in V. apply V. auto.
-        * unfold decl. rewrite EK, L, T. auto.
+        * unfold decl. rewrite L, T. auto.
       + split; auto. intros w E. discriminate E.
     - rewrite TV. split; auto. intros w E. discriminate E.
   Qed.
 
   Lemma gpus_facts : tval v_gpus = declared (st_res st) RGpus /\ (forall w, tval v_gpus = Some w -> safe_word w).
   Proof.
-    apply (opt_facts RGpus (s "gpus") (VStr [])); try reflexivity; try discriminate; auto.
-    - simpl. tauto.
-    - unfold v_gpus, get_default, addl. rewrite lookup_addl by reflexivity.
+    assert (E : v_gpus = match lookup (key_name RGpus) (st_res st) with Some y => y | None => VStr [] end).
+    { unfold v_gpus, get_default, addl. rewrite lookup_addl by reflexivity.
       rewrite lookup_run_items by (split; reflexivity).
-      change (mem_str (s "gpus") step_run_default_keys) with true. cbv iota. unfold run_val. reflexivity.
+      change (mem_str (s "gpus") step_run_default_keys) with true. cbv iota. unfold run_val. reflexivity. }
+    rewrite E. apply (opt_facts RGpus (VStr [])); try discriminate; auto. simpl. tauto.
   Qed.
   Lemma bg_facts : tval v_bg = declared (st_res st) RBindGpus /\ (forall w, tval v_bg = Some w -> safe_word w).
   Proof.
-    apply (opt_facts RBindGpus (s "bind gpus") VNone); try reflexivity; try discriminate; auto.
-    - simpl. tauto.
-    - unfold v_bg, get_default, addl. rewrite lookup_addl_extra; try reflexivity. split; reflexivity.
+    assert (E : v_bg = match lookup (key_name RBindGpus) (st_res st) with Some y => y | None => VNone end).
+    { unfold v_bg, get_default, addl. rewrite lookup_addl_extra; try reflexivity. split; reflexivity. }
+    rewrite E. apply (opt_facts RBindGpus VNone); try discriminate; auto. simpl. tauto.
   Qed.
 
   Definition cpus_decl : option str :=
@@ -725,3 +725,151 @@ Section LsfStep.
     apply R; auto using printed_word, opair_printed.
   Qed.
 End LsfStep.
+
+(** * the LSF script of a scheduled step *)
+Lemma script_ok_sched_lsf : forall c sched_ok n text rs,
+  schedulable (c_step c) = true -> c_be c = Lsf -> rejected c = false ->
+  sched_ok (c_cmd c) text = true ->
+  match st_restart (c_step c), rs with
+  | [], None => True
+  | _ :: _, Some (_, rt) => sched_ok (c_restart c) rt = true
+  | _, _ => False
+  end ->
+  script_ok c sched_ok {| sc_sched := true; sc_name := n; sc_text := text; sc_restart := rs |} = true.
+Proof.
+  intros c sched_ok n text rs SC BE RJ G1 G2. unfold script_ok. cbv zeta. rewrite SC, BE.
+  cbn [negb orb backend_eqb Bool.eqb sc_sched sc_text sc_restart]. rewrite RJ, G1. cbn [negb andb].
+  destruct (st_restart (c_step c)); destruct rs as [[rn rt]|]; try contradiction; auto.
+Qed.
+
+Lemma reads_as_jsrun : forall wp wb g bg a r cc,
+  reads_as ([(RTasks, wp); (RBind, wb)] ++ opt_pair RGpus g ++ opt_pair RBindGpus bg
+            ++ [(RTasksPerRs, a); (RRsPerNode, r); (RCpusPerTask, cc)])
+           [(RTasks, Some wp); (RGpus, g); (RBind, Some wb); (RBindGpus, bg);
+            (RTasksPerRs, Some a); (RRsPerNode, Some r); (RCpusPerTask, Some cc)] jsrun_keys = true.
+Proof.
+  intros. unfold reads_as, jsrun_keys. destruct g, bg; simpl; rewrite ?str_eqb_refl; reflexivity.
+Qed.
+
+Section LsfCase.
+  Variable c : case.
+  Hypothesis HP : H15_parts c.
+  Hypothesis LP : lsf_parts c.
+  Hypothesis BE : c_be c = Lsf.
+  Hypothesis NK6b : K6_lsf_header c = false.
+  Hypothesis NK6c : K6_lsf_nodes_only c = false.
+  Let st := c_step c.
+  Let b := c_batch c.
+  Let addl := addl_args st.
+  Let nodes := run_val st (s "nodes").
+  Let procs := run_val st (s "procs").
+
+  Definition tsub_lsf (f : tokform) : str := jt c (snd (tok_vals f)).
+  Definition bsub_lsf : str := jt c procs.
+
+  Lemma tok_procs_printed : forall f, tok_wf f = true ->
+    intable (snd (tok_vals f)) /\ printed (render (snd (tok_vals f))) (tok_procs f)
+    /\ (truthy (fst (tok_vals f)) = true -> intable (fst (tok_vals f))).
+  Proof.
+    intros f W. destruct (tok_wf_parts f W) as [P Nn].
+    destruct f as [n p sp | p n sp | p | n p sp]; simpl in *.
+    - split; [|split]. exists (Z.of_N (dval 0 p)). apply int_of_digits; auto.
+      apply printed_word. apply digits_word; auto.
+      intros _. exists (Z.of_N (dval 0 n)). apply int_of_digits; auto.
+    - split; [|split]. exists (Z.of_N (dval 0 p)). apply int_of_digits; auto.
+      apply printed_word. apply digits_word; auto.
+      intros _. exists (Z.of_N (dval 0 n)). apply int_of_digits; auto.
+    - split; [|split]. exists (Z.of_N (dval 0 p)). apply int_of_digits; auto.
+      apply printed_word. apply digits_word; auto.
+      intros X. discriminate X.
+    - split; [|split]. exists (Z.of_N (dval 0 p)). apply int_of_blanks_digits; auto.
+      apply printed_blanks. apply digits_word; auto.
+      intros _. exists (Z.of_N (dval 0 n)). apply int_of_digits; auto.
+  Qed.
+
+  Lemma par_tok_lsf : forall f, tok_wf f = true ->
+    par_lsf addl (snd (tok_vals f)) (fst (tok_vals f)) = Ok (tsub_lsf f).
+  Proof.
+    intros f W. destruct (tok_procs_printed f W) as [I [_ In_]]. apply (par_lsf_jt c LP); auto.
+  Qed.
+  Lemma tsub_lsf_ok : forall f, tok_wf f = true -> sub_ok (tsub_lsf f) = true.
+  Proof.
+    intros f W. destruct (tok_procs_printed f W) as [_ [P _]].
+    destruct (jt_read c HP LP (snd (tok_vals f)) _ _ eq_refl P) as [_ S]. exact S.
+  Qed.
+
+  (** a bare variable in a scheduled step: the step declares procs *)
+  Lemma bare_procs : schedulable st = true -> has_bare (c_cmd c) || has_bare (c_restart c) = true ->
+    total_of st RTasks <> 0.
+  Proof.
+    intros SC HB E. unfold K6_lsf_nodes_only in NK6c. rewrite BE in NK6c. simpl backend_eqb in NK6c.
+    fold st in NK6c. rewrite E, HB in NK6c. unfold schedulable in SC. rewrite E in SC.
+    simpl in SC. rewrite orb_false_r in SC. rewrite SC in NK6c. discriminate NK6c.
+  Qed.
+
+  Lemma procs_facts : total_of st RTasks <> 0 ->
+    intable procs /\ printed (render procs) (render procs) /\ declared (st_res st) RTasks = Some (render procs).
+  Proof.
+    intros NZ. destruct (total_run_val st RTasks ltac:(discriminate) (hp_procs c HP)) as [M [T [E D]]].
+    change (key_name RTasks) with (s "procs") in *. fold procs in M, T, E, D.
+    apply N.eqb_neq in NZ. rewrite NZ in T. simpl in T.
+    unfold tval in E, D. rewrite T in E, D. split; [|split].
+    - unfold max_of in M. rewrite T in M. eexists. exact M.
+    - apply printed_word. apply digits_word. apply D. reflexivity.
+    - auto.
+  Qed.
+  Lemma nodes_intable : truthy nodes = true -> intable nodes.
+  Proof.
+    intros T. destruct (total_run_val st RNodes ltac:(discriminate) (hp_nodes c HP)) as [M _].
+    change (key_name RNodes) with (s "nodes") in *. fold nodes in M. unfold max_of in M. rewrite T in M.
+    eexists. exact M.
+  Qed.
+
+  Lemma par_bare_lsf : schedulable st = true -> has_bare (c_cmd c) || has_bare (c_restart c) = true ->
+    par_lsf addl procs nodes = Ok bsub_lsf.
+  Proof.
+    intros SC HB. destruct (procs_facts (bare_procs SC HB)) as [I _].
+    apply (par_lsf_jt c LP); auto. apply nodes_intable.
+  Qed.
+
+  Lemma sched_cmd_lsf :
+    scheduler_command (par_lsf addl) st =
+    if schedulable st then
+      if alloc_rejected st (c_cmd c) then Err Diag
+      else if alloc_rejected st (c_restart c) then Err Diag
+      else Ok (true, segs_text (map (final_seg tsub_lsf bsub_lsf) (c_cmd c)),
+               segs_text (map (final_seg tsub_lsf bsub_lsf) (c_restart c)))
+    else Ok (false, st_cmd st, st_restart st).
+  Proof.
+    apply (sched_cmd_gen c HP (par_lsf addl) tsub_lsf bsub_lsf); auto using par_tok_lsf, tsub_lsf_ok, par_bare_lsf.
+  Qed.
+
+  (** every launcher piece reads back *)
+  Lemma launch_ok_final_lsf : forall ps p, schedulable st = true -> pieces_wf ps = true ->
+    (has_bare ps = true -> has_bare (c_cmd c) || has_bare (c_restart c) = true) -> In p ps ->
+    launch_good (launch_ok_lsf st) (final_seg tsub_lsf bsub_lsf) p.
+  Proof.
+    intros ps p SC W HBp I. unfold launch_good. destruct p as [t| |f]; auto.
+    - (* bare *)
+      assert (HB : has_bare ps = true).
+      { unfold has_bare. apply existsb_exists. exists PBare. auto. }
+      destruct (procs_facts (bare_procs SC (HBp HB))) as [_ [P D]].
+      destruct (jt_read c HP LP procs _ _ eq_refl P) as [R S]. simpl seg_text. unfold bsub_lsf. split.
+      + unfold launch_ok_lsf. fold st in R. rewrite R. unfold want_lsf. fold st. rewrite D.
+        destruct (rpn_facts c LP) as [_ [_ Er]]. destruct (tprs_facts c LP) as [_ [_ Et]].
+        destruct (bind_facts c HP LP) as [_ Eb]. destruct (cpus_facts c LP) as [_ Ec].
+        fold st in Er, Et, Eb, Ec. unfold cpus_decl in Ec. fold st in Ec.
+        rewrite <- Er, <- Et, <- Eb, <- Ec. apply reads_as_jsrun.
+      + intro E. rewrite E in S. discriminate S.
+    - (* token *)
+      pose proof (pieces_tok_wf ps f W I) as TW.
+      destruct (tok_procs_printed f TW) as [_ [P _]].
+      destruct (jt_read c HP LP (snd (tok_vals f)) _ _ eq_refl P) as [R S]. simpl seg_text. unfold tsub_lsf. split.
+      + unfold launch_ok_lsf. fold st in R. rewrite R. unfold want_lsf. fold st.
+        destruct (rpn_facts c LP) as [_ [_ Er]]. destruct (tprs_facts c LP) as [_ [_ Et]].
+        destruct (bind_facts c HP LP) as [_ Eb]. destruct (cpus_facts c LP) as [_ Ec].
+        fold st in Er, Et, Eb, Ec. unfold cpus_decl in Ec. fold st in Ec.
+        rewrite <- Er, <- Et, <- Eb, <- Ec. apply reads_as_jsrun.
+      + intro E. rewrite E in S. discriminate S.
+  Qed.
+End LsfCase.
